@@ -9,10 +9,11 @@ from ..runner import Enum, Hyp
 ID = "C19"
 TITLE = "Documented metric/axis/output combinations never crash"
 RULE = ("The cross product (70 metrics + 28 diagrams + -hist/-sort) x (19 -x dimensions + default) x 8 output types x "
-        "{explicit -r/-q, defaults} x bin types / aggregators, run through verif.driver.run on 11 hand-built dataset shapes "
+        "{explicit -r/-q lists, a single threshold / quantile, defaults} x bin types / aggregators, run through verif.driver.run on 11 hand-built dataset shapes "
         "(deterministic, probabilistic, ensemble, 1-3 inputs, single time / location / lead time, an all-missing location, "
         "no missing data; text and NetCDF files): quick = a stratified sample in which every metric, axis and type occurs "
-        "repeatedly; thorough = the full product on rotating shapes plus Hypothesis-generated datasets. Oracle: the run "
+        "repeatedly; thorough = the full product on rotating shapes plus Hypothesis-generated datasets; (drawn) the 34 figure kinds "
+        "of C16, each with the arguments that diagram needs, on generated datasets and saved with -f. Oracle: the run "
         "returns normally (a non-empty file when -f is given) or stops with SystemExit(!=0) after an 'Error:' line; "
         "anything else is bucketed by exception type @ innermost repository frame. Every run is a distinct documented "
         "combination; distinct by (metric, axis, type, variant, shape).")
@@ -28,7 +29,7 @@ AXES = [None, "time", "leadtime", "year", "month", "week", "day", "timeofday", "
         "elev", "lat", "lon", "threshold", "leadtimeday", "no", "obs", "fcst"]
 TYPES = ["plot", "text", "csv", "map", "rank", "maprank", "impact", "mapimpact"]
 SHAPES = sorted(fixed.SHAPES.keys())
-VARIANTS = ["explicit", "default", "explicit-b", "agg"]
+VARIANTS = ["explicit", "default", "explicit-b", "agg", "one"]
 BINS = ["below", "below=", "above", "above=", "within", "=within", "within=", "=within="]
 AGGS = ["median", "max", "count", "std", "0.9", "sum", "iqr", "range", "min", "variance", "meanabs", "absmean"]
 
@@ -57,6 +58,19 @@ def variant_args(name, variant, k, axis=None):
             args += ["-q", "0.1,0.9"]
         if axis in ("obs", "fcst") and "-r" not in args:
             args += ["-r", "-2.5,0,2.5,10"]
+    if variant == "one":
+        # exactly one threshold / quantile (some diagrams require it: droc, droc0, ...)
+        if kind in ("thr", "detr", "pthr") or name in ("cond", "freq", "spreadskill", "marginal", "roc", "droc", "droc0", "reliability", "discrimination",
+                                                       "performance", "invreliability", "murphy", "bsdecomp", "igncontrib", "economicvalue", "fss", "taylor", "error"):
+            args += ["-r", ["1", "0", "2.5"][k % 3]]
+        if kind == "q1":
+            args += ["-q", ["0.5", "0.1", "0.9"][k % 3]]
+        if kind == "q2":
+            args += ["-q", "0.1,0.9"]
+        if name in ("obsfcst", "meteo", "timeseries"):
+            args += ["-q", "0.5"]
+        if axis in ("obs", "fcst") and "-r" not in args:
+            args += ["-r", "0"]
     if variant == "explicit-b":
         args += ["-b", BINS[k % len(BINS)]]
     if variant == "agg":
@@ -87,6 +101,11 @@ def items(tier):
                     variant = VARIANTS[(mi + ti + rep) % len(VARIANTS)]
                     out.append({"shape": SHAPES[(mi + ti * 2 + rep * 5) % len(SHAPES)], "metric": name, "axis": AXES[ai], "type": typ,
                                 "variant": variant, "k": mi + ti + rep, "kind": "netcdf" if (mi + ti + rep) % 4 == 0 else "text"})
+    # every diagram drawn with exactly one threshold / quantile (a requirement of some, e.g. droc), default axis, two shapes
+    for di, name in enumerate(DIAGRAMS):
+        for rep in range(2):
+            out.append({"shape": SHAPES[(di + rep * 4) % len(SHAPES)], "metric": name, "axis": None, "type": "plot", "variant": "one",
+                        "k": di + rep, "kind": "text"})
     # field metrics on the conditional axes with every aggregator and -r edges that leave bins empty
     n = 0
     for fld in ("obs", "fcst"):
@@ -202,9 +221,45 @@ def check_generated(case, ctx):
     judge(ctx, case, r, out, args)
 
 
+# ---- every kind of diagram with arguments that suit it, drawn into a file ----------------------
+def drawn_strategy(tier):
+    from . import c16
+    return c16.strategy(tier)
+
+
+def check_drawn(case, ctx):
+    """The C16 figure kinds (each with the -r/-q/-b/-x arguments that diagram needs, on generated datasets) written with
+    -f: the run must draw and save the figure, or stop with an error message."""
+    from .. import drive, mat, model
+    from . import c16
+    if "diagram" not in case:
+        return check_item(case, ctx)
+    spec = case["spec"]
+    if model.DS(spec).empty:
+        return
+    dargs = c16.DIAGRAMS[case["diagram"]]["cls"].args(dict(case, opt=dict(case["opt"])), spec)
+    if dargs is None:
+        return
+    _gcount[0] += 1
+    d = os.path.join(ctx.scratch, "d%d" % _gcount[0])
+    os.makedirs(d)
+    paths, _ = mat.write_files(spec, d, "text")
+    out = os.path.join(d, "fig.png")
+    args = list(paths) + list(dargs) + ["-f", out, "-dpi", "30"]
+    r = drive.run(args)
+    _runs[0] += 1
+    if _runs[0] % 25 == 0:
+        drive.close_figures()
+    ctx.evals += 1
+    ctx.label("drawn=" + case["diagram"])
+    ctx.nt(("drawn", case["diagram"], case["opt"], spec["times"], [dd["fcst"] for dd in spec["inputs"]]))
+    judge(ctx, {"diagram": case["diagram"], "opt": case["opt"], "spec": spec, "type": "plot", "axis": case["opt"].get("axis")}, r, out, args)
+
+
 def campaigns(tier):
     return [
         Enum("sweep", items, check_item, "stratified sample (quick) / full product (thorough) of metric x axis x type on fixed dataset shapes",
              budget_quick=75, budget_thorough=3600),
         Hyp("generated", gen_strategy, check_generated, quick=320, thorough=20000, budget_quick=40, budget_thorough=1500),
+        Hyp("drawn", drawn_strategy, check_drawn, quick=480, thorough=12000, budget_quick=40, budget_thorough=1500),
     ]
